@@ -24,25 +24,49 @@ def space(tier):
     if tier == 'quick':
         return {'orders': [1, 2, 3], 'dims': [1, 2], 'ranksA': [1, 2], 'ranksB': [1, 2], 'dtypes': 'all 16 pairs of per-core dtype patterns {real, complex, core0 real + rest complex, only core0 complex}',
                 'fam': ['gauss', 'int']}
-    return {'orders<=3': {'dims': [1, 2, 3], 'ranksA': [1, 2, 3], 'ranksB': [1, 2, 3]},
-            'order4': {'dims': [1, 2], 'ranksA': [1, 2, 3], 'ranksB': [1, 2]}, 'dtypes': 'all 16 pairs of per-core dtype patterns {real, complex, core0 real + rest complex, only core0 complex}',
-            'fam': ['gauss', 'int']}
+    return {'orders 1-2': {'dims': [1, 2, 3], 'ranksA': [1, 2, 3], 'ranksB': [1, 2, 3], 'dtypes': 'all 16 pattern pairs'},
+            'order 3': [{'dims': [1, 2], 'ranks': [1, 2], 'dtypes': 'all 16 pattern pairs'}, {'dims': [1, 2, 3], 'ranksA': [1, 2], 'ranksB': [1, 3], 'dtypes': '6 pattern pairs'}],
+            'order 4': {'dims': [1, 2], 'ranks': [1, 2], 'dtypes': '6 pattern pairs'},
+            'order 5': {'size vectors': [[2, 1, 2, 1, 2], [1, 2, 2, 2, 1], [2, 2, 2, 2, 2]], 'rank vectors': 3, 'dtypes': '6 pattern pairs'},
+            'fam': ['gauss', 'int (all patterns up to order 3 with sizes {1,2}; real operands otherwise)']}
 
 
 def cases(tier):
+    ALL16 = list(itertools.product([False, True, 'tail', 'head'], repeat=2))
+    SIX = [(False, False), (True, True), (False, True), (True, False), ('tail', 'head'), ('head', 'tail')]
     if tier == 'quick':
-        plan = [(d, [1, 2], [1, 2], [1, 2]) for d in (1, 2, 3)]
+        plan = [(d, [1, 2], [1, 2], [1, 2], None, ALL16, True) for d in (1, 2, 3)]
     else:
-        plan = [(d, [1, 2, 3], [1, 2, 3], [1, 2, 3]) for d in (1, 2, 3)] + [(4, [1, 2], [1, 2, 3], [1, 2])]
-    for d, dims, ra, rb in plan:
-        for rows in itertools.product(dims, repeat=d):
-            for cols in itertools.product(dims, repeat=d):
-                for rA in rank_vectors(d, ra):
-                    for rB in rank_vectors(d, rb):
-                        for cA, cB in itertools.product([False, True, 'tail', 'head'] if d > 1 else [False, True], repeat=2):
+        # orders 1-2: the full product over sizes and ranks {1,2,3}; order 3: sizes {1,2,3}, ranks {1,2} x {1,3}; order 4: sizes
+        # {1,2}, ranks {1,2}; order 5: three size vectors x three rank vectors. From order 3 on, six dtype-pattern pairs and the
+        # integer family only for real operands (the complete 16-pattern product is in the quick tier for sizes/ranks {1,2}).
+        plan = [(d, [1, 2, 3], [1, 2, 3], [1, 2, 3], None, ALL16, True) for d in (1, 2)]
+        plan += [(d, [1, 2], [1, 2], [1, 2], None, ALL16, True) for d in (3,)]            # the quick lattice is a subset of thorough
+        plan += [(3, [1, 2, 3], [1, 2], [1, 3], None, SIX, False), (4, [1, 2], [1, 2], [1, 2], None, SIX, False)]
+        five = [[2, 1, 2, 1, 2], [1, 2, 2, 2, 1], [2, 2, 2, 2, 2]]
+        plan += [(5, None, None, None, five, SIX, False)]
+    seen = set()
+    for d, dims, ra, rb, vecs, pats, intall in plan:
+        rowsets = list(itertools.product(dims, repeat=d)) if vecs is None else vecs
+        if vecs is None:
+            rvA = list(rank_vectors(d, ra)); rvB = list(rank_vectors(d, rb))
+        else:
+            rvA = rvB = [[1] * (d + 1), [1] + [2] * (d - 1) + [1], [1, 2, 1, 2, 1, 1][:d] + [1]]
+        for rows in rowsets:
+            for cols in rowsets:
+                for rA in rvA:
+                    for rB in rvB:
+                        for cA, cB in (pats if d > 1 else itertools.product([False, True], repeat=2)):
                             for fam in ('gauss', 'int'):
-                                yield {'d': d, 'rows': list(rows), 'cols': list(cols), 'rA': rA, 'rB': rB, 'cA': cA,
-                                       'cB': cB, 'fam': fam}
+                                if fam == 'int' and not intall and (cA or cB):
+                                    continue
+                                case = {'d': d, 'rows': list(rows), 'cols': list(cols), 'rA': list(rA), 'rB': list(rB), 'cA': cA,
+                                        'cB': cB, 'fam': fam}
+                                k = repr(case)
+                                if k in seen:
+                                    continue
+                                seen.add(k)
+                                yield case
 
 
 def run_case(case, seed):
